@@ -26,6 +26,7 @@ import (
 	"github.com/cnotch/ipchub/config"
 	"github.com/cnotch/ipchub/media"
 	"github.com/cnotch/ipchub/service"
+	"github.com/cnotch/ipchub/service/rtsp"
 	"github.com/cnotch/xlog"
 	"github.com/gorilla/websocket"
 )
@@ -36,7 +37,22 @@ var SdpText func(int64) string
 
 // Commands returns the harness commands of this package.
 func Commands() map[string]func(Val) Val {
-	return map[string]func(Val) Val{"C12_wsp": runCase}
+	return map[string]func(Val) Val{"C12_wsp": runCase, "C12_wsp_channel": channelOf}
+}
+
+// channelOf: (ch0 text track) -> the interleaved channel RTPTransport.ParseTransport leaves for the track
+func channelOf(c Val) Val {
+	t := rtsp.RTPTransport{Mode: rtsp.PlaySession, Type: rtsp.RTPUnknownTrans}
+	for i := range t.Channels {
+		t.Channels[i] = int(c.At(0).Int())
+		t.ClientPorts[i] = -1
+	}
+	idx := int(rtsp.ChannelVideo)
+	if c.At(2).Int() != 0 {
+		idx = int(rtsp.ChannelAudio)
+	}
+	t.ParseTransport(idx, c.At(1).Str())
+	return I(int64(t.Channels[idx]))
 }
 
 var (
@@ -235,6 +251,24 @@ func rtspText(q Val) (string, bool) {
 	return sb.String(), true
 }
 
+// namesChannel: does the Transport header ask for an interleaved channel 0..255?  (Only used to
+// decide how long a client that was told PLAY 200 waits for media; the verdict is the model's.)
+func namesChannel(ts string) bool {
+	for _, tok := range strings.Split(ts, ";") {
+		kv := strings.SplitN(tok, "=", 2)
+		if len(kv) == 2 && strings.TrimSpace(kv[0]) == "interleaved" {
+			v := strings.Trim(kv[1], " \t\"")
+			if i := strings.IndexByte(v, '-'); i >= 0 {
+				v = strings.TrimSpace(v[:i])
+			}
+			if n, err := strconv.Atoi(v); err == nil && n >= 0 && n <= 255 {
+				return true
+			}
+		}
+	}
+	return false
+}
+
 func wspText(cmd, channel, seq, body string) string {
 	var sb strings.Builder
 	fmt.Fprintf(&sb, "WSP/1.1 %s\r\n", cmd)
@@ -259,11 +293,17 @@ type world struct {
 	seq uint16
 }
 
-func rtpPacket(seq uint16) *rtp.Packet {
-	// one non-IDR slice NAL
+func rtpPacket(seq uint16, audio bool) *rtp.Packet {
+	// video: one non-IDR slice NAL; audio: one 4-byte AAC access unit (AU-headers-length 16, size 4)
 	data := []byte{0x80, 96, byte(seq >> 8), byte(seq), 0, 0, 0, 1, 0x11, 0x22, 0x33, 0x44,
 		0x41, 0x9a, 0x24, 0x6c, 0x41, 0x4f, 0xfe, 0xd0, 0x10, 0x20, 0x30, 0x40}
-	p := &rtp.Packet{Channel: byte(rtp.ChannelVideo), Data: data}
+	ch := byte(rtp.ChannelVideo)
+	if audio {
+		data = []byte{0x80, 97, byte(seq >> 8), byte(seq), 0, 0, 0, 1, 0x55, 0x66, 0x77, 0x88,
+			0x00, 0x10, 0x00, 0x20, 0xd1, 0xd2, 0xd3, 0xd4}
+		ch = rtp.ChannelAudio
+	}
+	p := &rtp.Packet{Channel: ch, Data: data}
 	if err := p.Header.Unmarshal(p.Data); err != nil {
 		panic(err)
 	}
@@ -319,18 +359,38 @@ func (w *world) settledRegistry(watch []Val) Val {
 	}
 }
 
-// feed writes one video packet into every live pre-published stream.
-func (w *world) feed() (anyConsumer bool) {
+// feed publishes one round into every live pre-published stream: video(2k), audio(2k), video(2k+1).
+// The consumer passes packets on in this order, so the client can tell when the whole round has
+// arrived without knowing which tracks were set up: a video frame 2k is followed by the video
+// frame 2k+1 as the round's last frame; an audio frame 2k that was not preceded by the video frame
+// 2k means that video is not delivered and is itself the last one.
+func (w *world) feed() (k uint16, anyConsumer bool) {
 	w.seq++
+	k = w.seq
 	for _, s := range w.ext {
 		if media.Get(s.Path()) == s {
 			if s.ConsumerCount() > 0 {
 				anyConsumer = true
 			}
-			s.WriteRtpPacket(rtpPacket(w.seq))
+			s.WriteRtpPacket(rtpPacket(2*k, false))
+			s.WriteRtpPacket(rtpPacket(2*k, true))
+			s.WriteRtpPacket(rtpPacket(2*k+1, false))
 		}
 	}
 	return
+}
+
+// an RTP frame on a data channel: '$', channel, length, RTP header
+type frame struct {
+	audio bool
+	seq   uint16
+}
+
+func frameOf(msg []byte) (frame, bool) {
+	if len(msg) < 8 || msg[0] != '$' {
+		return frame{}, false // e.g. an empty message: not media
+	}
+	return frame{audio: msg[5]&0x7f == 97, seq: uint16(msg[6])<<8 | uint16(msg[7])}, true
 }
 
 func patience(d time.Duration) time.Duration {
@@ -377,15 +437,17 @@ func runCase(c Val) Val {
 	// what a client knows from the answers it got
 	established, channel := false, "424242"
 	played, paused, joined := false, false, false
+	interleaved := false // some SETUP named an interleaved channel (without one no track can be delivered)
 
-	// anything that arrives on a data channel after the JOIN answer is media for this property
-	// (a packet of a track that was not set up travels as an empty message)
-	drain := func() (n int) {
+	// media: RTP frames that arrive on a data channel after the JOIN answer
+	drain := func() (fs []frame) {
 		for _, d := range datas {
 			for {
 				select {
-				case <-d.msgs:
-					n++
+				case m := <-d.msgs:
+					if f, ok := frameOf(m); ok {
+						fs = append(fs, f)
+					}
 					continue
 				default:
 				}
@@ -394,17 +456,31 @@ func runCase(c Val) Val {
 		}
 		return
 	}
-	waitAny := func(d time.Duration) int {
+	waitAny := func(d time.Duration) []frame {
 		deadline := time.Now().Add(d)
 		for {
-			if n := drain(); n > 0 {
-				return n
+			if fs := drain(); len(fs) > 0 {
+				return fs
 			}
 			if time.Now().After(deadline) {
-				return 0
+				return nil
 			}
 			time.Sleep(100 * time.Microsecond)
 		}
+	}
+	// roundDone: has the last frame of round k arrived (see feed)?
+	roundDone := func(k uint16, fs []frame, sawVideo *bool) bool {
+		for _, f := range fs {
+			switch {
+			case !f.audio && f.seq == 2*k:
+				*sawVideo = true
+			case !f.audio && f.seq == 2*k+1:
+				return true
+			case f.audio && f.seq == 2*k && !*sawVideo:
+				return true
+			}
+		}
+		return false
 	}
 
 	// collect reads the answers to one request: until the sentinel's answer (when one was sent), the
@@ -486,6 +562,9 @@ func runCase(c Val) Val {
 					return L(S("!badcase"))
 				}
 				teardown = q.At(2).Int() == 6
+				if q.At(2).Int() == 3 && namesChannel(q.At(5).Str()) {
+					interleaved = true
+				}
 				text = wspText("WRAP", channel, seq, body)
 			default:
 				text = wspText("JOIN", channel, seq, "")
@@ -546,9 +625,9 @@ func runCase(c Val) Val {
 			reg, _ = w.registry(watch)
 		}
 
-		// media: one packet into every live pre-published stream after each step
-		got := drain() > 0
-		consuming := w.feed()
+		// media: one round of packets into every live pre-published stream after each step
+		got := len(drain()) > 0
+		_, consuming := w.feed()
 		alive := false
 		for _, d := range datas {
 			select {
@@ -558,46 +637,49 @@ func runCase(c Val) Val {
 			}
 		}
 		if consuming && alive && !ctl.dead {
-			believes := played && !paused && joined
+			believes := played && !paused && joined && interleaved
 			d := 15 * time.Millisecond
 			if believes {
 				d = 2 * time.Second
 				if mediaMisses > 3 {
-					d = 30 * time.Millisecond
+					d = 300 * time.Millisecond
 				}
 			}
 			// setDataChannel runs after the JOIN answer is written, so the first packets may be
 			// dropped: keep publishing until something arrives
 			deadline := time.Now().Add(d)
-			fed, seen := 1, 0
+			seen := false
 			for {
-				if seen = waitAny(2 * time.Millisecond); seen > 0 {
+				if len(waitAny(2*time.Millisecond)) > 0 {
+					seen = true
 					break
 				}
 				if time.Now().After(deadline) {
 					break
 				}
 				w.feed()
-				fed++
 			}
-			if seen > 0 {
+			if seen {
 				got = true
-				// every packet published while media flows yields one message: let them all arrive,
-				// so that nothing is in flight when the next request is sent
-				// (packets dropped before setDataChannel never arrive: give up after 100 ms of silence)
-				grace, idle := time.Now().Add(time.Second), time.Now().Add(100*time.Millisecond)
-				for seen < fed && time.Now().Before(grace) && time.Now().Before(idle) {
-					if n := drain(); n > 0 {
-						seen += n
-						idle = time.Now().Add(100 * time.Millisecond)
-					} else {
-						time.Sleep(100 * time.Microsecond)
+				// media flows: one more round, and wait for its last frame, so that nothing is in
+				// flight when the next request (PAUSE, TEARDOWN) is sent
+				k, _ := w.feed()
+				sawVideo := false
+				limit := time.Now().Add(patience(2 * time.Second))
+				for {
+					if roundDone(k, drain(), &sawVideo) {
+						break
 					}
+					if time.Now().After(limit) {
+						timeouts++
+						break
+					}
+					time.Sleep(100 * time.Microsecond)
 				}
 			} else if believes {
 				mediaMisses++
 			}
-		} else if drain() > 0 {
+		} else if len(drain()) > 0 {
 			got = true
 		}
 		steps = append(steps, L(L(resps...), Bo(ctl.dead), reg, Bo(got)))
